@@ -17,6 +17,7 @@ from fiddle import history as fdl_history
 from fiddle._src import tagging as fdl_tagging
 from fiddle._src import mutate_buildable
 from fiddle._src import materialize
+from fiddle._src import daglish
 from fiddle.experimental import serialization
 
 from fsim import canon as C
@@ -182,6 +183,8 @@ def apply_op(env: Env, op):
                                      drop_invalid_args=op.get('drop', False))
     return C.canon(cfg)
   if k == 'materialize':
+    if not _materialize_in_scope(cfg):
+      return history_obs(cfg)   # a C20 matter (see _materialize_in_scope)
     materialize.materialize_defaults(cfg)
     return C.canon(cfg)
   if k == 'assign':
@@ -192,6 +195,24 @@ def apply_op(env: Env, op):
     env.cfgs.append(new)
     return C.canon((cfg, new))
   raise ValueError(f'unknown op {k}')
+
+
+def _materialize_in_scope(cfg):
+  """materialize_defaults mishandles positional-only defaults (raises) and
+  dataclass default_factory fields (stores the <factory> sentinel, which does not
+  survive pickling): both belong to C20, which is not claimed.  Decided here, at
+  execution time, so that shrinking or a refused earlier op cannot steer the op
+  onto such a configuration."""
+  import dataclasses
+  import inspect
+  for v, _ in daglish.iterate(cfg):
+    if isinstance(v, fdl.Buildable):
+      for p in v.__signature_info__.parameters.values():
+        if p.kind == inspect.Parameter.POSITIONAL_ONLY and p.default is not p.empty:
+          return False
+        if type(p.default).__name__ == '_HAS_DEFAULT_FACTORY_CLASS':
+          return False
+  return True
 
 
 def step(env: Env, op):
